@@ -820,9 +820,99 @@ static void run_frames(int section)
 	xp_state(hash_mix(hash64(desc, strlen(desc), 1), (uint64_t)delivery + 2 * (uint64_t)(section == 7 ? fr[0].close_code + 1 : 0)));
 }
 
+
+/* ---- section 8: pings under back-pressure ----------------------------------------------------------------------------------
+ * The client stops reading (send window 0) before its p-th ping and goes on sending numbered pings; pongs pile up in the daemon's
+ * write buffer until one does not fit.  Then the window reopens and one more ping follows.  Whatever happens, the pongs the client
+ * finally holds answer a gap-free prefix of its pings, in order, with identical payloads; if the connection is still open at the
+ * end every ping was answered - a ping that could not be answered ends the connection, it is never silently skipped. */
+static void run_ping_backpressure(void)
+{
+	int plen = 1 + 31 * xp_choose(4, XP_SCENARIO, "ping-length"); /* 1, 32, 63, 94 */
+	int total = (int)(2 * CONFIG_MAX_WRITE_BUFFER_SIZE / (plen + 2)) + 6;
+	if (total > 400) {
+		total = 400;
+	}
+	int stop_at = xp_choose(3, XP_SCENARIO, "stops-reading-before-ping");
+	int per_batch = 1 + xp_choose(2, XP_SCENARIO, "pings-per-read") * 3; /* 1 or 4 pings per chunk */
+	struct sim_opts o = {0};
+	jx_boot(&o);
+	int Ac = jx_open(CL_WS);
+	snprintf(what, sizeof(what), "%d pings of %d bytes, the client stops reading before ping %d, %d ping(s) per read, write buffer %d bytes", total, plen, stop_at, per_batch, (int)CONFIG_MAX_WRITE_BUFFER_SIZE);
+	struct bytebuf b = {0};
+	for (int i = 0; i <= total; i++) {
+		if (i == stop_at) {
+			sim_set_window(Ac, 0);
+		}
+		if (i == total) {
+			/* everything is sent: the client reads again, then sends the last ping */
+			sim_client_send(Ac, b.p, b.len);
+			bb_reset(&b);
+			jx_settle();
+			sim_set_window(Ac, -1);
+			jx_settle();
+		}
+		if (sim_conn_closed_by_daemon(Ac)) {
+			break;
+		}
+		uint8_t pl[128];
+		memset(pl, 'a' + (i % 26), (size_t)plen);
+		pl[0] = (uint8_t)(i & 0xff);
+		if (plen > 1) {
+			pl[1] = (uint8_t)(i >> 8);
+		}
+		cl_frame_ws(&b, 9, true, 0, true, 0, pl, (size_t)plen);
+		if (((i + 1) % per_batch) == 0 || i == total) {
+			sim_client_send(Ac, b.p, b.len);
+			bb_reset(&b);
+			jx_settle();
+		}
+	}
+	jx_settle();
+	struct client *c = &clients[Ac];
+	if (c->frame_violation[0] && !sim_conn_closed_by_daemon(Ac)) {
+		fail12("server-frame-malformed:backpressure", "%s", c->frame_violation);
+	}
+	int next = 0;
+	for (int i = 0; i < c->nmsgs; i++) {
+		struct cl_msg *m = &c->msgs[i];
+		if (m->wsop != 10) {
+			continue;
+		}
+		int idx = m->len >= 1 ? ((uint8_t)m->text[0] | (plen > 1 && m->len >= 2 ? ((uint8_t)m->text[1] << 8) : 0)) : -1;
+		if (plen == 1) {
+			idx = next & 0xff; /* one byte only: compare modulo 256 */
+			if ((uint8_t)m->text[0] != (uint8_t)(next & 0xff)) {
+				idx = -2;
+			}
+		}
+		if (idx != (plen == 1 ? (next & 0xff) : next) || m->len != (size_t)plen) {
+			char key[120];
+			snprintf(key, sizeof(key), "pong-sequence-has-a-hole:%s", sim_conn_closed_by_daemon(Ac) ? "connection-closed-later" : "connection-still-open");
+			fail12(key, "pong %d answers ping %d (payload %zu bytes): ping %d was never answered although a later one was", i, idx, m->len, next);
+		}
+		next++;
+	}
+	if (!sim_conn_closed_by_daemon(Ac) && next != total + 1) {
+		fail12("ping-unanswered-on-open-connection", "the connection is still open but only %d of %d pings were answered", next, total + 1);
+	}
+	xp_count(sim_conn_closed_by_daemon(Ac) ? "connection_closed_when_a_pong_could_not_be_sent" : "all_pings_answered", 1);
+	xp_count("pongs_received", next);
+	jx_close_all();
+	jx_check_idle_baseline("left-behind:");
+	xp_nontrivial();
+	xp_transition();
+	xp_outcome((uint64_t)next);
+	xp_state(hash_mix((uint64_t)plen * 100 + (uint64_t)stop_at * 10 + (uint64_t)per_batch, 81));
+}
+
 static void run(void)
 {
 	long s = xp_param("section", 0);
+	if (s == 8) {
+		run_ping_backpressure();
+		return;
+	}
 	switch (s) {
 	case 0:
 		run_handshake();
@@ -845,6 +935,6 @@ const struct driver drv_c12 = {
     .name = "c12",
     .property = "C12",
     .run = run,
-    .rule = "section 0: handshake product Upgrade(4) x Connection(5) x Key(5) x Version(5) x Protocol(9) x target(2) x HTTP version(2) x header order/case(3), reference predicate 'valid RFC 6455 upgrade offering jet' => 101 + accept digest recomputed by the harness + 'Sec-WebSocket-Protocol: jet'; wrong target / HTTP 1.0 => never 101; anything else: 101 or error status or close (leniently upgraded invalid requests are counted, not judged); section 1: every single message, every ordered pair and the whole of a 24-message session sent as websocket text messages, JSON output on every connection equal to the raw-transport twin; section 2: get/fetch over 0..200 states of 1..400 bytes (server frames across the 126 and 65536 boundaries), decoder demands unmasked, FIN, minimal length encoding, content equal to the raw twin; section 3: ping of every length 0..125 x 4 mask keys x 8 read-buffer alignments => exactly one pong with identical payload; sections 4-6: single-frame product, ordered pairs over 26 frames, ordered triples over 10 frames, x {one readiness event per frame, one read}, judged per frame by an RFC 6455 classifier (unmasked / RSV / reserved opcode / fragmented or >125 control / bad sequence => close 1002; close payload rules => 1002/1007/echo; ping => pong; binary => close; non-UTF-8 text => 1007; request => response; fragments and other text => processed or close frame); section 7: a close frame with every status code around the boundaries of the valid ranges (45 codes; thorough: all 65536) with and without a reason: 0-999, 1004-1006, 1015-2999 and >= 5000 => close 1002, 1000-1003 / 1007-1011 / 3000-4999 => echoed or 1000, 1012-1014 unjudged; deviation budget 1: every split point of the client bytes (first 40 for frames)",
+    .rule = "section 0: handshake product Upgrade(4) x Connection(5) x Key(5) x Version(5) x Protocol(9) x target(2) x HTTP version(2) x header order/case(3), reference predicate 'valid RFC 6455 upgrade offering jet' => 101 + accept digest recomputed by the harness + 'Sec-WebSocket-Protocol: jet'; wrong target / HTTP 1.0 => never 101; anything else: 101 or error status or close (leniently upgraded invalid requests are counted, not judged); section 1: every single message, every ordered pair and the whole of a 24-message session sent as websocket text messages, JSON output on every connection equal to the raw-transport twin; section 2: get/fetch over 0..200 states of 1..400 bytes (server frames across the 126 and 65536 boundaries), decoder demands unmasked, FIN, minimal length encoding, content equal to the raw twin; section 3: ping of every length 0..125 x 4 mask keys x 8 read-buffer alignments => exactly one pong with identical payload; sections 4-6: single-frame product, ordered pairs over 26 frames, ordered triples over 10 frames, x {one readiness event per frame, one read}, judged per frame by an RFC 6455 classifier (unmasked / RSV / reserved opcode / fragmented or >125 control / bad sequence => close 1002; close payload rules => 1002/1007/echo; ping => pong; binary => close; non-UTF-8 text => 1007; request => response; fragments and other text => processed or close frame); section 7: a close frame with every status code around the boundaries of the valid ranges (45 codes; thorough: all 65536) with and without a reason: 0-999, 1004-1006, 1015-2999 and >= 5000 => close 1002, 1000-1003 / 1007-1011 / 3000-4999 => echoed or 1000, 1012-1014 unjudged; section 8: numbered pings of 4 lengths while the client has stopped reading, until the pongs no longer fit the write buffer, then the client reads again and sends one more: the pongs received answer a gap-free prefix of the pings, and if the connection is still open all of them; deviation budget 1: every split point of the client bytes (first 40 for frames)",
     .assumptions = "frames larger than the daemon's read buffer may be refused by dropping the connection (RFC 6455 leaves the status open)|a valid close frame may be echoed with the received code or with 1000|text messages whose payload is not the reference request are judged by the transparency section, not by the classifier",
 };
